@@ -1,8 +1,92 @@
 package main
 
+import (
+	"go/ast"
+	"os"
+	"path/filepath"
+	"sort"
+	"strings"
+)
+
+// c13Callee renders the callee of a call, looking through a generic instantiation (`f[T](...)`)
+func c13Callee(e ast.Expr) string {
+	switch v := e.(type) {
+	case *ast.IndexExpr:
+		return c13Callee(v.X)
+	case *ast.IndexListExpr:
+		return c13Callee(v.X)
+	}
+	return calleeName(e)
+}
+
+// c13EnqueueSites: every call `<recv>.Add|AddAfter|AddRateLimited(...)` of the files whose receiver satisfies
+// isQueue, as "file:func:recv.Method", in file then source order
+func c13EnqueueSites(rels []string, isQueue func(recv string) bool) []string {
+	var res []string
+	for _, rel := range rels {
+		for _, d := range load(rel).f.Decls {
+			fd, ok := d.(*ast.FuncDecl)
+			if !ok || fd.Body == nil {
+				continue
+			}
+			ast.Inspect(fd.Body, func(n ast.Node) bool {
+				c, ok := n.(*ast.CallExpr)
+				if !ok {
+					return true
+				}
+				sel, ok := c.Fun.(*ast.SelectorExpr)
+				if !ok {
+					return true
+				}
+				switch sel.Sel.Name {
+				case "Add", "AddAfter", "AddRateLimited":
+					if recv := exprString(sel.X); isQueue(recv) {
+						res = append(res, filepath.Base(rel)+":"+fd.Name.Name+":"+recv+"."+sel.Sel.Name)
+					}
+				}
+				return true
+			})
+		}
+	}
+	return res
+}
+
 func factsC13() {
 	// ---- C13
 	rl := "pkg/utils/workqueue/ratelimiters.go"
 	addStrList("c13ReloadWhenCalls", methodCalls(rl, "reloadHAProxy", "When"), "selector calls inside reloadHAProxy.When, in source order")
 	addStrList("c13IngressWhenCalls", methodCalls(rl, "ingressReconciler", "When"), "selector calls inside ingressReconciler.When, in source order")
+	// the enqueue discipline: every call site of the reconcile queue in pkg/controller/reconciler
+	dir := "pkg/controller/reconciler"
+	ents, err := os.ReadDir(filepath.Join(repo, dir))
+	if err != nil {
+		fail("%s: %v", dir, err)
+	}
+	var rels []string
+	for _, e := range ents {
+		n := e.Name()
+		if strings.HasSuffix(n, ".go") && !strings.HasSuffix(n, "_test.go") && n != "verif_export.go" {
+			rels = append(rels, dir+"/"+n)
+		}
+	}
+	sort.Strings(rels)
+	addStrList("c13ReconcileEnqueueSites", c13EnqueueSites(rels, func(recv string) bool {
+		return recv == "q" || recv == "queue" || strings.HasSuffix(recv, ".queue")
+	}), "every <queue>.Add/AddAfter/AddRateLimited call of pkg/controller/reconciler (receiver q / queue / x.queue) as file:func:recv.Method")
+	// the reload queue: its callers, and what its facade's Add does
+	addStrList("c13ReloadEnqueueSites", c13EnqueueSites([]string{"pkg/controller/services/services.go", "pkg/haproxy/instance.go"}, func(recv string) bool {
+		return strings.HasSuffix(recv, "eloadQueue")
+	}), "every <x>.reloadQueue / ReloadQueue .Add/AddAfter/AddRateLimited call of services.go and instance.go as file:func:recv.Method")
+	addStrList("c13WorkQueueAddCalls", methodCalls("pkg/utils/workqueue/workqueue.go", "WorkQueue", "Add"), "selector calls inside WorkQueue.Add (the facade the reload queue's callers use)")
+	// how SetupWithManager builds the reconcile queue (what the harness hook replicates)
+	var setup []string
+	ast.Inspect(methodDecl(dir+"/reconciler.go", "IngressReconciler", "SetupWithManager").Body, func(n ast.Node) bool {
+		if c, ok := n.(*ast.CallExpr); ok {
+			if s := c13Callee(c.Fun); strings.Contains(s, ".") {
+				setup = append(setup, s)
+			}
+		}
+		return true
+	})
+	addStrList("c13SetupCalls", setup, "selector calls inside IngressReconciler.SetupWithManager (generic instantiations looked through), in source order")
 }
